@@ -456,4 +456,22 @@ end
 def getPageTreeRaw (c : CallSites) (v : Variant) (enc : Str) (cs : List RawEntry) : Res :=
   getPageTree v (decodeL c enc cs)
 
+/-! ## the rest of the generated documentation that the pages point into
+
+`Documentation.writeout` copies the project's `media_dir` (whatever it is called) to
+`<output>/<mediaDestSeg>`; the `|media|` alias must name that place.  The fixed navigation bar of
+every page (`base.html`) starts with a link to the top static page. -/
+
+/-- `copytree(self.data["media_dir"], out_dir / "media")`: what exists below `<output>` afterwards
+    (`none`: the project has no `media_dir`, `self.data` has no such key, nothing is copied) -/
+def mediaOutputs : Option (List Entry) → List (PathS × Bool)
+  | none => []
+  | some es => (mediaDestSeg, true) :: (listAll.listAllL es).map (fun p => (mediaDestSeg ++ p.1, p.2))
+
+/-- `{{ pages.url | relurl(page_url) }}` in the navigation bar of page `q` -/
+def topNavHref (base : PathS) (top q : Node) : Str := relurl base q (nodeUrl base top)
+
+/-- the layer of `aliasLayers` that stands for the dict literal of the predefined aliases -/
+def predefinedLayer : Str := pt! "<predefined>"
+
 end Ford.PT
